@@ -70,8 +70,9 @@ def fixed_randomness(U: Universe, a_int=None):
 
 class Scn:
     def __init__(self, family, transport, cfg=0, acc=None, m2=(), m4=(), m6=(), honest=False, detail="", with_auth=True,
-                 srp=None):
+                 srp=None, pre=()):
         self.family, self.transport, self.cfg, self.acc = family, transport, cfg, acc or {}
+        self.pre = list(pre)           # complete pairings run first, in the same process (setup sequences)
         self.srp = srp                 # (client secret a, server secret b) pinned by the directed search, or None
         self.m2, self.m4, self.m6 = list(m2), list(m4), list(m6)
         self.honest, self.detail, self.with_auth = honest, detail, with_auth
@@ -80,7 +81,7 @@ class Scn:
         return f"{self.family}|{self.transport}|{self.cfg}|{self.detail}"
 
     def stage(self):
-        return "m2" if self.m2 else ("m4" if self.m4 else ("m6" if self.m6 else "none"))
+        return "m2" if (self.m2 or self.pre) else ("m4" if self.m4 else ("m6" if self.m6 else "none"))
 
     def base_key(self):
         return (self.transport, self.cfg, tuple(sorted(self.acc.items())), self.with_auth, self.srp)
@@ -303,10 +304,20 @@ def shared_srp_work():
 def _whole(i):
     s = _FAN["scns"][i]
     try:
+        earlier = []
+        for p in s.pre:                # earlier pairings of this process (other accessory identities / codes)
+            pst = new_state(p)
+            if step_to_m4(pst, p.m2) and step_to_m6(pst, p.m4):
+                step_finish(pst, p.m6)
+            pr = summarise(p, pst)
+            earlier.append(dict(scenario=pr["ident"], impl=pr["impl"], record=pr["record"], messages=pr["bytes"],
+                                setup_code=pr["code"]))
         st = new_state(s)
         if step_to_m4(st, s.m2) and step_to_m6(st, s.m4):
             step_finish(st, s.m6)
-        return summarise(s, st)
+        out = summarise(s, st)
+        out["earlier_pairings"] = earlier
+        return out
     except Exception as e:  # noqa: BLE001
         import traceback
         return dict(harness_error=f"{s.ident()}: {type(e).__name__}: {e}\n{traceback.format_exc()[-800:]}")
@@ -389,6 +400,304 @@ def leading_zero_params(verif, budget=4000):
     return out, tried
 
 
+# ---- the real pairing glue over a scripted link (BLE with link drops; IP and CoAP once, honestly) ----------------
+LINK_FAULTS = [None, ("m1", "write"), ("m1", "read"), ("m3", "write"), ("m3", "read"), ("m5", "write"), ("m5", "read")]
+
+
+class LinkSession:
+    """one connection = one SRP session of the reference accessory (fresh salt and server secret)"""
+
+    def __init__(self, U, k, code, acc_id):
+        self.k = k
+        self.salt = hashlib.sha512(b"verif|c03|link-salt|%d" % k).digest()[:16]
+        self.acc = SetupAccessory(U, code, self.salt, 50 + k, acc_id, ACC_LTSK, SRP_A, CTRL_LTSK)
+        self.U = U
+        self.log = []
+
+    def respond(self, body: bytes):
+        d = dict(ref_decode(body) or [])
+        name = {b"\x01": "m1", b"\x03": "m3", b"\x05": "m5"}.get(d.get(T_STATE), "?")
+        if name == "m1":
+            items = self.acc.on_m1(body)
+        elif name == "m3":
+            _, items = self.acc.on_m3(body)
+        elif name == "m5":
+            _, out = self.acc.on_m5(body)
+            items = out.build(self.U) if hasattr(out, "build") else out
+        else:
+            items = [(T_STATE, lit(b"\x00")), (T_ERROR, lit(b"\x01"))]
+        reply = ref_encode([(t, v.b) for t, v in items])
+        return name, reply
+
+
+class Link:
+    def __init__(self, fault, code=b"111-22-333", acc_id=b"AA:BB:CC:DD:EE:FF"):
+        self.U = Universe("c03-link")
+        self.fault, self.fired = fault, False
+        self.code, self.acc_id = code, acc_id
+        self.sessions = []
+
+    def connect(self):
+        s = LinkSession(self.U, len(self.sessions), self.code, self.acc_id)
+        self.sessions.append(s)
+        return s
+
+    def exchange(self, session, body: bytes, drop):
+        """one request/response over the link; drop() severs the connection"""
+        d = dict(ref_decode(bytes(body)) or [])
+        name = {b"\x01": "m1", b"\x03": "m3", b"\x05": "m5"}.get(d.get(T_STATE), "?")
+        if self.fault == (name, "write") and not self.fired:
+            self.fired = True
+            session.log.append(dict(request=bytes(body).hex(), fault="link dropped while the request was written"))
+            drop()
+            return None
+        _, reply = session.respond(bytes(body))
+        if self.fault == (name, "read") and not self.fired:
+            self.fired = True
+            session.log.append(dict(request=bytes(body).hex(), reply=reply.hex(), fault="link dropped before the reply was read"))
+            drop()
+            return None
+        session.log.append(dict(request=bytes(body).hex(), reply=reply.hex()))
+        return reply
+
+    def verdict(self, record, exc):
+        """the conformance half of C03 for a pairing that (possibly after a retry) must succeed"""
+        last = self.sessions[-1].acc if self.sessions else None
+        problems = []
+        if record is None:
+            problems.append(f"pairing raised {exc}")
+        if last is None or not last.m3_ok:
+            problems.append("the accessory did not accept M3 in the final session")
+        if last is None or not last.m5_ok:
+            problems.append("the accessory did not accept M5 in the final session")
+        if record is not None and last is not None:
+            from cryptography.hazmat.primitives import serialization
+            from cryptography.hazmat.primitives.asymmetric.ed25519 import Ed25519PrivateKey
+            pub = Ed25519PrivateKey.from_private_bytes(bytes.fromhex(record["iOSDeviceLTSK"])).public_key().public_bytes(
+                encoding=serialization.Encoding.Raw, format=serialization.PublicFormat.Raw)
+            if pub.hex() != record["iOSDeviceLTPK"]:
+                problems.append("iOSDeviceLTPK is not the public key of iOSDeviceLTSK")
+            if last.stored != (record["iOSPairingId"].encode(), pub):
+                problems.append("the accessory stored another controller identity than the record holds")
+            if record["AccessoryPairingID"].encode() != self.acc_id or record["AccessoryLTPK"] != self.U.edpub(ACC_LTSK).b.hex():
+                problems.append("the record does not hold the accessory's identifier / LTPK")
+        return problems
+
+    def transcript(self):
+        return [dict(connection=s.k, salt=s.salt.hex(), srp_server_secret_b=hex(s.acc.b), exchanges=s.log,
+                     m3_accepted=s.acc.m3_ok, m5_accepted=s.acc.m5_ok) for s in self.sessions]
+
+
+async def pair_over_ble(link: Link, pin: str):
+    """the real BleDiscovery.async_start_pairing / finish_pairing (real retry decorator, real
+    drive_pairing_state_machine and _pairing_char_write) over a scripted GATT link"""
+    import bleak_retry_connector as brc
+    from bleak.exc import BleakError
+
+    import aiohomekit.controller.ble.client as bc
+    import aiohomekit.controller.ble.discovery as bd
+
+    class FakeClient:
+        address = "AA:BB:CC:DD:EE:FF"
+
+        def __init__(self):
+            self.is_connected = True
+            self.session = link.connect()
+
+        async def disconnect(self):
+            self.is_connected = False
+
+        async def clear_cache(self):
+            pass
+
+        async def get_characteristic(self, *a, **k):
+            return object()
+
+        async def get_characteristic_iid(self, *a, **k):
+            return 1
+
+    async def fake_establish(*a, **k):
+        return FakeClient()
+
+    async def fake_char_read(client, ek, dk, handle, iid):
+        return b"\x00"                                  # feature flags: no MFi auth
+
+    async def fake_char_write(client, ek, dk, handle, iid, body):
+        if not client.is_connected:
+            raise BleakError("not connected")
+
+        def drop():
+            client.is_connected = False
+        reply = link.exchange(client.session, bytes(body), drop)
+        if reply is None:
+            raise BleakError("link dropped")
+        return reply
+
+    made = {}
+
+    class RecordingPairing:
+        def __init__(self, controller, pairing, **kw):
+            made["pairing"] = dict(pairing)
+
+    class Desc:
+        name, address = "acc", "AA:BB:CC:DD:EE:FF"
+
+    class Ctl:
+        pairings = {}
+
+    saved = (bd.establish_connection, bd.char_read, bc.char_write, bd.BlePairing, getattr(brc, "calculate_backoff_time", None))
+    bd.establish_connection, bd.char_read, bc.char_write, bd.BlePairing = fake_establish, fake_char_read, fake_char_write, RecordingPairing
+    if saved[4] is not None:
+        brc.calculate_backoff_time = lambda exc: 0.0
+    exc = None
+    try:
+        disc = bd.BleDiscovery(Ctl(), object(), Desc(), None)
+        with fixed_randomness(link.U), shared_srp_work():
+            try:
+                finish = await disc.async_start_pairing("alias")
+                await finish(pin)
+            except Exception as e:  # noqa: BLE001
+                exc = type(e).__name__
+    finally:
+        bd.establish_connection, bd.char_read, bc.char_write, bd.BlePairing = saved[:4]
+        if saved[4] is not None:
+            brc.calculate_backoff_time = saved[4]
+    return made.get("pairing"), exc
+
+
+async def pair_over_ip(link: Link, pin: str):
+    """the real IpDiscovery.async_start_pairing / finish_pairing (real post_tlv) with the HTTP layer scripted"""
+    import aiohomekit.controller.ip.connection as ipc
+    import aiohomekit.controller.ip.discovery as idisc
+    from aiohomekit.protocol.tlv import TLV
+    session = link.connect()
+    made = {}
+
+    class Resp:
+        def __init__(self, body):
+            self.body = body
+
+    class RecordingPairing:
+        def __init__(self, controller, pairing, **kw):
+            made["pairing"] = dict(pairing)
+
+    class Desc:
+        address, addresses, port, feature_flags = "127.0.0.1", ["127.0.0.1"], 1, 0
+
+    class Ctl:
+        pairings = {}
+
+    conn = ipc.HomeKitConnection(None, ["127.0.0.1"], 1)
+
+    async def fake_post(target, body, content_type=None):
+        return Resp(link.exchange(session, bytes(body), lambda: None))
+
+    async def nothing(*a, **k):
+        return None
+    conn.post, conn.ensure_connection, conn.close = fake_post, nothing, nothing
+    disc = idisc.IpDiscovery.__new__(idisc.IpDiscovery)
+    disc.description, disc.controller, disc.connection = Desc(), Ctl(), conn
+    saved = idisc.IpPairing
+    idisc.IpPairing = RecordingPairing
+    exc = None
+    try:
+        with fixed_randomness(link.U), shared_srp_work():
+            try:
+                finish = await disc.async_start_pairing("alias")
+                await finish(pin)
+            except Exception as e:  # noqa: BLE001
+                exc = type(e).__name__
+    finally:
+        idisc.IpPairing = saved
+    _ = TLV
+    return made.get("pairing"), exc
+
+
+async def pair_over_coap(link: Link, pin: str):
+    """the real CoAPDiscovery.async_start_pairing / finish_pairing (do_pair_setup, do_pair_setup_finish) with aiocoap scripted"""
+    import aiohomekit.controller.coap.connection as cc
+    import aiohomekit.controller.coap.discovery as cdisc
+    session = link.connect()
+    made = {}
+
+    class Resp:
+        def __init__(self, payload):
+            self.payload = payload
+
+    class Req:
+        def __init__(self, payload):
+            async def r():
+                return Resp(payload)
+            self.response = r()
+
+    class FakeCtx:
+        def request(self, message):
+            return Req(link.exchange(session, bytes(message.payload), lambda: None))
+
+        async def shutdown(self):
+            pass
+
+    class FakeContext:
+        @staticmethod
+        async def create_client_context():
+            return FakeCtx()
+
+        @staticmethod
+        async def create_server_context(root, bind=None):
+            return FakeCtx()
+
+    class RecordingPairing:
+        def __init__(self, controller, pairing, **kw):
+            made["pairing"] = dict(pairing)
+
+    class Desc:
+        address, addresses, port, feature_flags = "::1", ["::1"], 5683, 0
+
+    class Ctl:
+        pairings = {}
+
+    disc = cdisc.CoAPDiscovery.__new__(cdisc.CoAPDiscovery)
+    disc.description, disc.controller = Desc(), Ctl()
+    disc.connection = cc.CoAPHomeKitConnection(None, "::1", 5683)
+    saved = (cc.Context, cdisc.CoAPPairing)
+    cc.Context, cdisc.CoAPPairing = FakeContext, RecordingPairing
+    exc = None
+    try:
+        with fixed_randomness(link.U), shared_srp_work():
+            try:
+                finish = await disc.async_start_pairing("alias")
+                await finish(pin)
+            except Exception as e:  # noqa: BLE001
+                exc = type(e).__name__
+    finally:
+        cc.Context, cdisc.CoAPPairing = saved
+    return made.get("pairing"), exc
+
+
+def link_pass():
+    """returns [(name, link, record, exc, problems)]"""
+    import asyncio
+    out = []
+
+    async def main():
+        for fault in LINK_FAULTS:
+            link = Link(fault)
+            rec, exc = await pair_over_ble(link, link.code.decode())
+            out.append(("ble:" + ("no-fault" if fault is None else f"drop-on-{fault[0]}-{fault[1]}"), link, rec, exc))
+        # wrong setup code over the real glue must still fail (and not be "repaired" by the retry)
+        link = Link(("m3", "read"))
+        rec, exc = await pair_over_ble(link, "111-22-334")
+        out.append(("ble:wrong-code:drop-on-m3-read", link, rec, exc))
+        link = Link(None)
+        rec, exc = await pair_over_ip(link, link.code.decode())
+        out.append(("ip:no-fault", link, rec, exc))
+        link = Link(None)
+        rec, exc = await pair_over_coap(link, link.code.decode())
+        out.append(("coap:no-fault", link, rec, exc))
+    asyncio.run(main())
+    return out
+
+
 # ---- scenario generation ------------------------------------------------------
 def honest_lengths(cfg):
     code, salt, acc_id, ios_id = CFGS[cfg]
@@ -402,6 +711,19 @@ def honest_lengths(cfg):
 def gen_scenarios(tier, rnd, lz=None):
     S = []
     full = tier == "thorough"
+    # setup sequences: several pairings in ONE process, each judged on its own (model and oracle are history-free)
+    for tr in TRANSPORTS:
+        first = Scn("pre:honest", tr, 0, honest=True)
+        failed = Scn("pre:wrong-code", tr, 0, acc=dict(code=WRONG_CODE, lenient=True))
+        S.append(Scn("setup-sequence:same-id-new-ltsk", tr, 0, acc=dict(ltsk=OTHER_LTSK), honest=True, pre=[first]))
+        S.append(Scn("setup-sequence:same-ltsk-new-id", tr, 0, acc=dict(acc_id=b"AA:BB:CC:DD:EE:00"), honest=True, pre=[first]))
+        S.append(Scn("setup-sequence:other-accessory", tr, 1, honest=True, pre=[first]))
+        S.append(Scn("setup-sequence:then-wrong-code", tr, 0, acc=dict(code=WRONG_CODE, lenient=True), pre=[first]))
+        S.append(Scn("setup-sequence:after-failure", tr, 0, honest=True, pre=[failed]))
+        S.append(Scn("setup-sequence:m6-signed-by-previous-ltsk", tr, 0, acc=dict(ltsk=OTHER_LTSK), pre=[first],
+                     m6=[sub(d_items(l_set(T_SIG, lambda ctx, v: ctx.U.sign(
+                         ACC_LTSK, ctx.U.hkdf(ctx.acc.K, lit(R.L_PSA_SALT), lit(R.L_PSA_INFO)) + lit(ctx.acc.acc_id)
+                         + ctx.U.edpub(ACC_LTSK)))), "sig-by-first-ltsk")]))
     # directed stream: honest exchanges (and a few mutations) whose S / A / B / M1 / M2 have a leading zero byte
     for kind, (a_, b_) in sorted((lz or {}).items()):
         for tr in TRANSPORTS:
@@ -613,6 +935,7 @@ def replay_payload(r, model=None):
                 with_auth=r["with_auth"], srp_client_secret_a=r["a_int"], reference_accessory_srp_secret_b=r["b_int"],
                 controller_ltsk_seed=Universe("c03").edsk(CTRL_LTSK).hex(), messages=r["bytes"],
                 impl=r["impl"], impl_exception=r["exc"], impl_record=r["record"], model=model,
+                earlier_pairings_in_this_process=r.get("earlier_pairings") or None,
                 oracle_reason=r["why_not"], oracle_record=r["just"],
                 how_to_replay="patch Srp.generate_private_key -> srp_client_secret_a and Ed25519PrivateKey.generate -> "
                               "controller_ltsk_seed; g1 = perform_pair_setup_part1(with_auth); g1.send(None); "
@@ -636,9 +959,12 @@ def run(ctx):
         # --replay <file>: re-run exactly the scenario a replay file names (deterministic secrets), all three ways
         import json
         want = json.load(open(ctx["replay"])).get("scenario")
+        ctx = dict(ctx, replay_scenario=want)
+        if str(want).startswith("real-glue:"):
+            scns = []
         scns = [s for s in scns if s.ident() == want] or \
                [s for s in gen_scenarios("thorough", rng(ctx["seed"], "c03"), lz) if s.ident() == want]
-        if not scns:
+        if not scns and not str(want).startswith("real-glue:"):
             return dict(coverage=dict(evaluations=0, distinct_nontrivial=0, rule="replay", samples=[]),
                         violations=[violation("replay:unknown-scenario", f"no scenario named {want}", False)])
         scns, workers = scns[:1], 1
@@ -711,6 +1037,33 @@ def run(ctx):
                                   f"returned record / accessory-side state differ from the model on {r['ident']}: "
                                   f"model {model_line}, impl stored={r['stored']} record={r['record']}",
                                   False, **replay_payload(r, model_line)))
+    # ---- the real discovery / finish_pairing glue over a scripted link
+    n_link = 0
+    if not ctx.get("replay") or "real-glue" in str(ctx.get("replay_scenario", "")):
+        for name, link, record, exc in link_pass():
+            n_link += 1
+            problems = link.verdict(record, exc)
+            wrong_code = ":wrong-code" in name
+            cov.case("link|" + name, True, sample=dict(scenario="real-glue:" + name, connections=len(link.sessions),
+                                                       returned=record is not None, exception=exc),
+                     transport="glue-" + name.split(":")[0], family="real-glue", outcome="done" if record else "fail:" + str(exc))
+            payload = dict(scenario="real-glue:" + name, setup_code=link.code.decode(), fault=link.fault,
+                           gatt_or_http_transcript=link.transcript(), returned_record=record, exception=exc,
+                           srp_client_secret_a=hex(srp_a_value()),
+                           how_to_replay="drive BleDiscovery.async_start_pairing(alias) and the returned finish_pairing(pin) over a "
+                                         "fake client whose char_write answers with the transcript's replies and raises BleakError "
+                                         "at the marked exchange; each connection is a fresh SRP session (salt, b as listed)")
+            if wrong_code:
+                if record is not None:
+                    viol.append(violation("real-glue:wrong-code-paired:" + name, "pairing with a wrong setup code returned a record "
+                                          "through the real pairing glue", True, **payload))
+            elif problems:
+                viol.append(violation("real-glue:honest-pairing-failed:" + name,
+                                      "with the right setup code and a specification-conformant accessory (one SRP session per "
+                                      "connection), pairing through the real discovery/finish_pairing glue"
+                                      + (" after a link drop and the library's own retry" if link.fault else "")
+                                      + " must succeed: " + "; ".join(problems), True, **payload))
+    cov.extra["real_glue_pairings"] = n_link
     cov.extra["exhaustive"] = True
     cov.extra["exhaustive_part"] = ("every single-bit flip of every byte of the honest M4 and M6 of one exchange (IP; other "
                                     "transports bits 0 and 7; thorough: everything) and of the TLV headers, state and salt "
